@@ -277,16 +277,19 @@ impl Check for Elsewhere {
     }
 }
 
+pub const E2E: super::e2e::EndToEnd = super::e2e::EndToEnd { part: "end-to-end-binary-vs-handler", methods: &["textDocument/references", "textDocument/rename", "textDocument/prepareRename"] };
+
 pub fn checks() -> Vec<Box<dyn Check>> {
-    vec![Box::new(Refs), Box::new(Elsewhere)]
+    vec![Box::new(Refs), Box::new(Elsewhere), Box::new(E2E)]
 }
 
 pub fn run(ctx: &Ctx) -> i32 {
-    let parts = vec![
+    let mut parts = vec![
         crate::corpus_part(ctx, &checks()),
         run_pbt(ctx, &Refs, ctx.n(8_000, 150_000)),
         run_pbt(ctx, &Elsewhere, ctx.n(3_000, 50_000)),
     ];
+    parts.push(run_pbt(ctx, &E2E, ctx.n(400, 8_000)));
     finish(
         ctx,
         parts,
